@@ -371,10 +371,12 @@ def run_target(unit, target, tier, variant="main", extra_defines=()):
             # "harness" mode: the pre/postcondition of the function named in "enforce" is encoded in the harness
             # (assume requires; call the real function; assert ensures); loop contracts are applied by
             # goto-instrument's non-dfcc instrumentation.  No frame (assigns) check in this mode.
-            # ghost globals (named g or g_*) are arbitrary by convention: without a havocking pass they would be
+            # ghost globals (unit.json "ghosts", default ["g"]) are arbitrary by convention: without a havocking pass they would be
             # zero-initialised and a "ghost index" would only ever look at element 0
-            cmd = ["goto-instrument", "--add-library",
-                   "--nondet-static-matching", r".*:g(_[A-Za-z0-9_]*)?$"]
+            ghosts = target.get("ghosts", unit.cfg.get("ghosts", ["g"]))
+            cmd = ["goto-instrument", "--add-library"]
+            if ghosts:
+                cmd += ["--nondet-static-matching", r".*:(%s)$" % "|".join(re.escape(x) for x in ghosts)]
         nloops = 0
         if target.get("loops"):
             lf0 = os.path.join(unit.dir, target["loops"])
